@@ -63,6 +63,12 @@ var Texts = map[string]string{
 	"ib": `module ib { namespace "urn:ib"; prefix ib; import bb { prefix bb; } container c { uses bb:g; } leaf l { type bb:t; } typedef tl { type bb:t; } leaf k { type tl; }
   leaf u { type union { type bb:t; type boolean; } } typedef tu { type union { type tl; type bb:t { pattern "p.*"; } } } leaf ku { type tu; }
   augment "/bb:bc" { leaf from-ib { type string; } } }`,
+	// two revisions of an importer, each naming its own revision of bb under the SAME prefix: what p:t means is a matter of
+	// the importing revision, whatever the order in which the library's maps hand the modules out
+	"ab-r1": `module ab { namespace "urn:ab"; prefix ab; import bb { prefix p; revision-date 2020-01-01; } revision 2020-02-02;
+  leaf l { type p:t; } typedef lt { type p:t; } leaf k { type lt; } container c { uses p:g; } }`,
+	"ab-r2": `module ab { namespace "urn:ab"; prefix ab; import bb { prefix p; revision-date 2021-01-01; } revision 2021-02-02;
+  leaf l { type p:t; } typedef lt { type p:t; } leaf k { type lt; } container c { uses p:g; } }`,
 	// accepted by the loader, rejected by Process: the errors must come back on every run
 	"e5": `module e5 { namespace "urn:e5"; prefix e5;
   typedef small { type int8 { range "1..500"; } }
